@@ -39,6 +39,21 @@ CHECKS = {
             'connection+namespace+id with exactly the acknowledged arguments, '
             'wrong ACKs cause no callback and no contained error, call() '
             'result shaping and TimeoutError.'),
+    'C08': ('DESIGN 4/C08',
+            'Seeded search over client histories: connect(namespaces as '
+            'None/str/list, auth value or callable, wait T/F) answered by a '
+            'scripted server (real engine.io) per namespace with accept / '
+            'refuse / silence in seeded order and delays, emit/send/call on '
+            'connected and unconnected namespaces, disconnect(), server '
+            'DISCONNECT of one or all namespaces, engine.io CLOSE, transport '
+            'loss at any point incl. mid binary packet and with callbacks '
+            'outstanding, and further connects; Client and AsyncClient, '
+            'function handlers and class-based namespaces; oracle = client '
+            'mirror model (CONNECT frames and auth, ConnectionError and full '
+            'reset on partial acceptance, namespaces / get_sid / connected '
+            'mirror, BadNamespaceError without frames, connect handler once, '
+            'disconnect handler once per connected namespace, nothing '
+            'survives into the next connection).'),
     'C09': ('DESIGN 4/C09',
             'Seeded search over histories of server-sent EVENT / BINARY_EVENT '
             '/ ACK / BINARY_ACK frames from a scripted server (real engine.io, '
